@@ -28,16 +28,16 @@ type Recvd struct {
 
 // ClntPeer is a harness-side raw 9P client endpoint with its own codec.
 type ClntPeer struct {
-	x       *Ctx
-	Conn    *rt.Conn
-	Dotu    bool
-	Msize   uint32
-	Sent    []*Sent
-	Recv    []*Recvd
-	EOF     bool
-	ReadErr error
-	BadSize bool
-	OnReply func(r *Recvd)
+	x           *Ctx
+	Conn        *rt.Conn
+	Dotu        bool
+	Msize       uint32
+	Sent        []*Sent
+	Recv        []*Recvd
+	EOF         bool
+	ReadErr     error
+	BadSize     bool
+	OnReply     func(r *Recvd)
 	StopReading bool // the client stops taking replies off the connection
 	// outstanding requests in issue order (a slice, not a map: see case.go on the race detector)
 	out []*Sent
